@@ -1,5 +1,6 @@
 import BoboVerif.Model.IdGen
 import BoboVerif.Gen.IdGen
+import BoboVerif.Lemmas.IdFmt
 /-!
 C16 — Generated identifiers never repeat.
 
@@ -63,5 +64,31 @@ example : run step init [10, 10, 9, 10] = [(10,0), (10,1), (10,2), (10,3)] := by
 /-- tie G: the body of `generate` as translated from /repo equals the model. -/
 theorem gen_step_eq : Bobo.Gen.IdGen.step = step := by
   funext s now; unfold Bobo.Gen.IdGen.step step; split <;> (try split) <;> simp_all <;> omega
+
+/-! ### the formatted strings (helper lemmas in Lemmas/IdFmt.lean) -/
+
+/-- **`fmt` is injective** in (prefix, second, counter) for every prefix string (underscores and
+digits allowed): the decimal renderings contain no `'_'`, so the last two underscores of an id
+delimit the two numbers. -/
+theorem fmt_injective {p₁ p₂ : Option String} {o₁ o₂ : Out} (h : fmt p₁ o₁ = fmt p₂ o₂) :
+    p₁ = p₂ ∧ o₁ = o₂ := fmt_inj h
+
+example : fmt (some "dev_1") (2, 3) ≠ fmt (some "dev") (1, 23) := fun h => by
+  have := (fmt_injective h).1; simp at this
+
+/-- ids of generators with different prefixes (one of them possibly without prefix) are disjoint. -/
+theorem prefix_disjoint {p₁ p₂ : Option String} (hp : p₁ ≠ p₂) (o₁ o₂ : Out) : fmt p₁ o₁ ≠ fmt p₂ o₂ :=
+  fun h => hp (fmt_injective h).1
+
+theorem fmt_none_ne_fmt_some (u : String) (o₁ o₂ : Out) : fmt none o₁ ≠ fmt (some u) o₂ :=
+  prefix_disjoint (by simp) o₁ o₂
+
+/-- **C16 (strings)**: the formatted ids handed out by one generator are pairwise distinct, for every
+prefix, every state and every clock sequence. -/
+theorem ids_distinct_str (urn : Option String) (s : St) (ts : List Int) :
+    ((run step s ts).map (fmt urn)).Pairwise (· ≠ ·) :=
+  List.Pairwise.map _ (fun _ _ hne h => hne (fmt_injective h).2) (ids_distinct s ts)
+
+example : (run step init [10, 10, 9, 10]).map (fmt (some "u")) = ["u_10_0", "u_10_1", "u_10_2", "u_10_3"] := by decide
 
 end Bobo.IdGen
